@@ -1138,3 +1138,66 @@ func (g *Gen) OfferDeletionHistory() []string {
 	}
 	return ops
 }
+
+// QuietAddressHistory: a MAC with two tracked addresses; address A goes silent (offline by IP change, or just
+// silent) while the MAC keeps sending from the second address. Purges are placed at last(A)+OfflineDeadline+-1,
+// last(A)+PurgeDeadline+-1 and relative to the second address's (= the MAC entry's) last-seen time, so that
+// "goes offline" and "is removed" are decided between the host's and the MAC entry's timestamps.
+func (g *Gen) QuietAddressHistory() []string {
+	u := g.U
+	m := u.MACs[2+g.Rng.Intn(3)]
+	a := u.IP4s[2+g.Rng.Intn(3)]
+	var second netip.Addr
+	cls := "6"
+	switch g.Rng.Intn(3) {
+	case 0:
+		second = u.IP6s[g.Rng.Intn(2)] // link-local beside the IPv4 address: A stays online until it ages
+	case 1:
+		second = u.IP6s[2+g.Rng.Intn(2)] // global
+	default:
+		second, cls = u.IP4s[2+(g.Rng.Intn(2)+1+indexOf(u.IP4s, a)-2)%3], "4" // IP change: A offline at once
+	}
+	type ev struct {
+		t   int64
+		ops []string
+	}
+	var evs []ev
+	lastA := int64(g.Rng.Intn(50))
+	evs = append(evs, ev{lastA, []string{RxTok(m, "4", a, nil, g.Rng.Intn(3), lastA), "N"}})
+	period := int64(g.Rng.Pick(120, 200, 250, 290))
+	horizon := lastA + 3660 + 400
+	for t := lastA + 1 + int64(g.Rng.Intn(40)); t < horizon; t += period {
+		evs = append(evs, ev{t, []string{RxTok(m, cls, second, nil, 0, t), "N"}})
+	}
+	crit := []int64{lastA + 299, lastA + 300, lastA + 301, lastA + 302, lastA + 3659, lastA + 3660, lastA + 3661, lastA + 3662}
+	for _, c := range crit {
+		if g.Rng.Chance(45) {
+			evs = append(evs, ev{c, []string{fmt.Sprintf("P,%d", c)}})
+		}
+	}
+	// purges relative to the active address's last frame
+	for i := 0; i < 2; i++ {
+		k := 1 + g.Rng.Intn(len(evs)-1)
+		t := evs[k].t + int64(g.Rng.Pick(1, 150, 299, 300, 301))
+		evs = append(evs, ev{t, []string{fmt.Sprintf("P,%d", t)}})
+	}
+	if g.Rng.Chance(25) { // A speaks once more somewhere in the quiet period
+		t := lastA + int64(g.Rng.Pick(100, 305, 2000))
+		evs = append(evs, ev{t, []string{RxTok(m, "4", a, nil, 0, t), "N"}})
+	}
+	sort.SliceStable(evs, func(i, j int) bool { return evs[i].t < evs[j].t })
+	var ops []string
+	for _, e := range evs {
+		ops = append(ops, e.ops...)
+	}
+	return ops
+}
+
+func indexOf(l []netip.Addr, a netip.Addr) int {
+	for i, x := range l {
+		if x == a {
+			return i
+		}
+	}
+	return 0
+}
